@@ -275,6 +275,26 @@ macro_rules! value_arms_yes {
                 let a = $sub!(a);
                 $erase!($cx, a.padded())
             }
+            G::ValApi(a) => {
+                let a = *a;
+                $erase!($cx, custom(move |inp: &mut InputRef<'a, '_, I, Ex<'a, I>>| {
+                    hook::cb();
+                    let before = inp.cursor();
+                    let seen = inp.peek().map(|t: I::Token| t.to_sym());
+                    if seen != Some(a) {
+                        return Err(Rich::custom(inp.span_since(&before), "valapi-nomatch"));
+                    }
+                    inp.skip();
+                    let mid = inp.cursor();
+                    let second = match inp.peek().map(|t: I::Token| t.to_sym()) {
+                        Some(s) if s == a => inp.next().map(|t: I::Token| t.to_sym()).unwrap_or(255),
+                        Some(_) => 253,
+                        None => 254,
+                    };
+                    let tail = inp.span_since(&mid).norm();
+                    Ok(Val::Span(inp.span_since(&before).norm(), Box::new(Val::Seq(vec![Val::Tok(second), Val::OnlySpan(tail)]))))
+                }))
+            }
             G::Any => $erase!($cx, any().map(|t: I::Token| {
                 hook::cb();
                 Val::Tok(t.to_sym())
@@ -421,6 +441,61 @@ where
         .boxed()
 }
 
+/// the by-reference token API of InputRef from inside a custom parser
+pub fn mk_ref_api<'a, I>(a: u8) -> BP<'a, I>
+where
+    I: ValueInput<'a> + BorrowInput<'a>,
+    I::Token: Tok,
+    I::Span: SpanX,
+{
+    custom(move |inp: &mut InputRef<'a, '_, I, Ex<'a, I>>| {
+        hook::cb();
+        let before = inp.cursor();
+        let seen: Option<&'a I::Token> = inp.peek_ref();
+        if seen.map(|t| t.to_sym()) != Some(a) {
+            return Err(Rich::custom(inp.span_since(&before), "refapi-nomatch"));
+        }
+        let got: Option<&'a I::Token> = inp.next_ref();
+        let after = inp.peek_ref().map(|t: &'a I::Token| t.to_sym()).unwrap_or(254);
+        Ok(Val::Span(inp.span_since(&before).norm(), Box::new(Val::Seq(vec![Val::Tok(got.map(|t| t.to_sym()).unwrap_or(255)), Val::Tok(after)]))))
+    })
+    .boxed()
+}
+
+/// slices between cursors the parser took itself: slice(c0..c1) and slice_since(c0..)
+pub fn mk_slice_api<'a, I>(a: u8) -> BP<'a, I>
+where
+    I: ValueInput<'a> + SliceInput<'a>,
+    I::Slice: SliceX,
+    I::Token: Tok,
+    I::Span: SpanX,
+{
+    custom(move |inp: &mut InputRef<'a, '_, I, Ex<'a, I>>| {
+        hook::cb();
+        let c0 = inp.cursor();
+        let mut cs = vec![inp.cursor()];
+        for _ in 0..3 {
+            let m = inp.save();
+            match inp.next_maybe().map(|t| t.to_sym()) {
+                Some(s) if s == a => cs.push(inp.cursor()),
+                _ => {
+                    inp.rewind(m);
+                    break;
+                }
+            }
+        }
+        if cs.len() < 2 {
+            return Err(Rich::custom(inp.span_since(&c0), "sliceapi-nomatch"));
+        }
+        let whole: I::Slice = inp.slice_since(&c0..);
+        let last: I::Slice = inp.slice(&cs[cs.len() - 2]..&cs[cs.len() - 1]);
+        let none: I::Slice = inp.slice(&cs[1]..&cs[1]);
+        let f = |s: I::Slice| Val::Seq(s.syms().into_iter().map(Val::Tok).collect());
+        Ok(Val::Span(inp.span_since(&c0).norm(), Box::new(Val::Seq(vec![f(whole), f(last), f(none)]))))
+    })
+    .boxed()
+}
+
 pub fn mk_select_ref<'a, I>(mask: u64) -> BP<'a, I>
 where
     I: ValueInput<'a> + BorrowInput<'a>,
@@ -563,6 +638,12 @@ where
     fn span_from_probe() -> Option<BP<'a, Self>> {
         None
     }
+    fn ref_api(_a: u8) -> Option<BP<'a, Self>> {
+        None
+    }
+    fn slice_api(_a: u8) -> Option<BP<'a, Self>> {
+        None
+    }
     fn text(_k: u8) -> Option<BP<'a, Self>> {
         None
     }
@@ -613,6 +694,9 @@ macro_rules! cap_fns {
         fn slice_from() -> Option<BP<'a, Self>> {
             Some(mk_slice_from::<Self>())
         }
+        fn slice_api(a: u8) -> Option<BP<'a, Self>> {
+            Some(mk_slice_api::<Self>(a))
+        }
     };
     (borrow) => {
         fn any_ref() -> Option<BP<'a, Self>> {
@@ -620,6 +704,9 @@ macro_rules! cap_fns {
         }
         fn select_ref(mask: u64) -> Option<BP<'a, Self>> {
             Some(mk_select_ref::<Self>(mask))
+        }
+        fn ref_api(a: u8) -> Option<BP<'a, Self>> {
+            Some(mk_ref_api::<Self>(a))
         }
     };
     (exact) => {
@@ -732,6 +819,10 @@ caps!([F: Fn(SSp) -> CSp + 'a] WithContext<CSp, MappedSpan<CSp, Stream<SimIter<u
 caps!([F: Fn(CSp) -> CSp + 'a] MappedSpan<CSp, WithContext<CSp, &'a [u8]>, F>; slice, borrow, exact, text_u8);
 caps!([F: Fn(CSp) -> CSp + 'a] MappedSpan<CSp, WithContext<CSp, IoInput<SimReader>>, F>;);
 caps!([F: Fn((u8, CSp)) -> (u8, CSp) + 'a] WithContext<CSp, MappedInput<u8, CSp, Stream<SimIter<(u8, CSp)>>, F>>;);
+// Input::map over inputs that hand out tokens by value (the function derives token and span from the underlying token)
+caps!([F: Fn(u8) -> (u8, CSp) + 'a] MappedInput<u8, CSp, IoInput<SimReader>, F>;);
+caps!([F: Fn(u8) -> (u8, CSp) + 'a] MappedInput<u8, CSp, bytes::Bytes, F>;);
+caps!([F: Fn(char) -> (u8, CSp) + 'a] MappedInput<u8, CSp, &'a str, F>;);
 // mapped (token, span) slice: tokens by reference and slices of the underlying pairs; span_from of a
 // mapped input runs to the end-of-input span by design, which has no index re-basing -> not probed
 caps!([F: Fn(&'a (u8, CSp)) -> (&'a u8, &'a CSp) + 'a] MappedInput<u8, CSp, &'a [(u8, CSp)], F>; slice, borrow);
@@ -755,6 +846,8 @@ macro_rules! caps_arms_yes {
                 I::select_ref(mask).expect("harness: input kind lacks BorrowInput")
             }
             G::SpanFrom => I::span_from_probe().expect("harness: input kind lacks ExactSizeInput"),
+            G::CapApi(0, a) => I::ref_api(*a).expect("harness: input kind lacks BorrowInput"),
+            G::CapApi(_, a) => I::slice_api(*a).expect("harness: input kind lacks SliceInput"),
             G::Text(k) => I::text(*k).expect("harness: input kind lacks StrInput (or a borrowed slice type for regex)"),
             G::Nested(inner, n) => I::nested(inner, *n as usize).expect("harness: input kind lacks the nest capability"),
             _ => unreachable!(),
@@ -1127,7 +1220,7 @@ macro_rules! define_builder {
                 }
                 G::Rec(body) => $rec!($name, cx, &**body),
                 G::RecRef => cx.rec.last().expect("harness: RecRef outside Rec").clone(),
-                other @ (G::Slice(_) | G::AnyRef | G::SelectRef(_) | G::SpanFrom | G::SliceFrom | G::Text(_) | G::Nested(..)) => $caps_arms!(cx, sub, other),
+                other @ (G::Slice(_) | G::AnyRef | G::SelectRef(_) | G::SpanFrom | G::SliceFrom | G::Text(_) | G::Nested(..) | G::CapApi(..)) => $caps_arms!(cx, sub, other),
                 other => $value_arms!($erase, sub, cx, other),
             }
         }
